@@ -1,5 +1,7 @@
 package redisemu
 
+import "strings"
+
 func fnWatch(ctx *cmdContext, args map[string]any) (output respValue, err error) {
 	if ctx.multi {
 		output.data = respErrorString("ERR WATCH inside MULTI is not allowed")
@@ -68,11 +70,40 @@ func fnExec(ctx *cmdContext, args map[string]any) (output respValue, err error) 
 		return
 	}
 
-	// take complete ownership of the data store
-	ctx.dsc.acquireExclusive()
-	defer ctx.dsc.releaseExclusive()
-	ctx.cs.execDsc = ctx.dsc
-	defer func() { ctx.cs.execDsc = nil }()
+	// take complete ownership of the data store - and of every data store a queued SELECT
+	// switches to: the commands queued after it run there, and they belong to the same
+	// atomic unit. Several data stores are taken in index order, so that two transactions
+	// cannot wait for each other.
+	owned := map[*dataStore]*dataStoreCommand{ctx.dsc.ds: ctx.dsc}
+	order := []*dataStoreCommand{}
+	for index := 0; index <= 15; index++ {
+		var ds *dataStore
+		if index == ctx.cs.selectedDb {
+			ds = ctx.dsc.ds
+		}
+		for _, cc := range *ctx.cs.cmdQueue {
+			if !strings.EqualFold(cc.cmdName, "select") {
+				continue
+			}
+			arg, _ := cc.args.get("index")
+			if want, isInt := arg.(int64); isInt && int(want) == index {
+				ds, _ = ctx.cs.dss.getDb(index, true)
+			}
+		}
+		if ds == nil {
+			continue
+		}
+		if _, exists := owned[ds]; !exists {
+			owned[ds] = ds.newDataStoreCommand()
+		}
+		order = append(order, owned[ds])
+	}
+	for _, dsc := range order {
+		dsc.acquireExclusive()
+		defer dsc.releaseExclusive()
+	}
+	ctx.cs.execOwned = owned
+	defer func() { ctx.cs.execOwned = nil }()
 
 	// maintain in-progress flag
 	ctx.cs.setMultiInProgress(true)
@@ -94,10 +125,10 @@ func fnExec(ctx *cmdContext, args map[string]any) (output respValue, err error) 
 			// runs against the database selected now, not the one selected when it was queued
 			cc.dsc = ctx.cs.ds.newDataStoreCommand()
 		}
-		if cc.dsc.ds == ctx.dsc.ds {
+		if owner, exists := owned[cc.dsc.ds]; exists {
 			// use the multi command id instead of each queued command's id,
 			// so that the commands won't try to acquire a lock that we already own
-			cc.dsc.id = ctx.dsc.id
+			cc.dsc.id = owner.id
 		}
 		results = append(results, ctx.cd.dispatchHandler(cc))
 	}
